@@ -949,6 +949,118 @@ static void sceneCornerCoincideCase(vh::Rng &r, bool thorough) {
 }
 
 
+// ------------------------------------------------------------------ PruneDegenerate rule tie
+//
+// prune-rule: many small constructed paths per case, each handed to a fresh TopologyConstraints
+// (whose constructor runs PruneDegenerate); only the pruning is observed.
+//   q <dim> <k> (<x> <y> <cx> <cy>)^k
+//   kept <m> <i_1> ... <i_m>
+// = the path as the rule sees it (position of each EdgePoint and centre of its node's rectangle) and
+// the indices of the points that survive the constructor. Shapes (canonical frame, then a random
+// symmetry of the square, listed from either end, either axis):
+//   pair      A -> M.TL -> N.BR -> B with N.BR exactly on M.TL (N in the row above M), the turn at X
+//             going round M or round N (the other bend is stale); A anywhere below-left (also straight
+//             below X), B anywhere above-right (also level with X)
+//   apart     the same with N.BR 5 or 10 to the right of M.TL (no coincidence: nothing to prune)
+//   collinear A -> M.TL -> N.BR -> K.BR -> B with a third node K in N's row: three bend points on one
+//             line parallel to the x axis (pruned in an x pass only)
+// Generator-side filter (precondition, not a verdict): node rectangles do not overlap, no leg cuts a
+// node, and in a coincident pair exactly one of the two points is a tight strict turn (the states a
+// layout pass can end in; otherwise the library's own COLA_ASSERTs reject the input).
+static bool hValidTurn(const EP *u, const EP *v, const EP *w) {
+    double c = cross2(u->posX(), u->posY(), v->posX(), v->posY(), w->posX(), w->posY());
+    if (c == 0) return true;
+    double rx = v->node->rect->getCentreX(), ry = v->node->rect->getCentreY();
+    return c * cross2(u->posX(), u->posY(), v->posX(), v->posY(), rx, ry) > 0 &&
+           c * cross2(v->posX(), v->posY(), w->posX(), w->posY(), rx, ry) > 0;
+}
+
+static void pruneRuleCase(vh::Rng &r) {
+    int done = 0;
+    for (int attempt = 0; attempt < 400 && done < 40; ++attempt) {
+        Scene sc;
+        Sym sym = {r.coin(), r.coin(), r.coin()};
+        double q[4];
+        int shape = (int) r.range(0, 5);            // 0-3 pair, 4 apart, 5 collinear
+        double mh = 10.0 * r.range(2, 4), mw = 10.0 * r.range(3, 9), nw = 10.0 * r.range(2, 5), nh = 10.0 * r.range(2, 3);
+        double s = shape <= 3 ? 0 : 5.0 * r.range(1, 2);
+        double ax = 5.0 * r.range(4, 20), ay = 5.0 * r.range(-12, (long) (mh - 10) / 5);
+        double bx = 100 + 5.0 * r.range(0, 30), by = mh + 5.0 * r.range(0, 24);
+        sym.rect(ax - 10, ax + 10, ay - 10, ay + 10, q); sc.addNode(q[0], q[1], q[2], q[3]);     // 0 = A
+        sym.rect(bx - 10, bx + 10, by - 10, by + 10, q); sc.addNode(q[0], q[1], q[2], q[3]);     // 1 = B
+        sym.rect(100, 100 + mw, 0, mh, q);               sc.addNode(q[0], q[1], q[2], q[3]);     // 2 = M
+        sym.rect(100 + s - nw, 100 + s, mh, mh + nh, q); sc.addNode(q[0], q[1], q[2], q[3]);     // 3 = N
+        std::vector<std::pair<unsigned, int> > pts;
+        pts.push_back(std::make_pair(0u, (int) EP::CENTRE));
+        pts.push_back(std::make_pair(2u, sym.corner(EP::TL)));
+        pts.push_back(std::make_pair(3u, sym.corner(EP::BR)));
+        if (shape == 5) {
+            double k0 = 100 + s + 5.0 * r.range(0, 3), kw = 10.0 * r.range(1, 3);
+            sym.rect(k0, k0 + kw, mh, mh + 10.0 * r.range(1, 3), q); sc.addNode(q[0], q[1], q[2], q[3]);   // 4 = K
+            pts.push_back(std::make_pair(4u, sym.corner(EP::BR)));
+        }
+        pts.push_back(std::make_pair(1u, (int) EP::CENTRE));
+        if (r.coin()) std::reverse(pts.begin(), pts.end());
+        bool ok = true;
+        for (size_t i = 0; i < sc.rs.size() && ok; ++i) for (size_t j = i + 1; j < sc.rs.size() && ok; ++j) ok = !rectsOverlap(sc.rs[i], sc.rs[j], 0);
+        // pathValid rejects repeated (node, corner) pairs only; coincident points of different nodes are what we want
+        if (!ok || !pathValid(sc, pts)) continue;
+        addEdge(sc, pts, 100);
+        topology::ConstEdgePoints path;
+        sc.edges[0]->getPath(path);
+        // every bend that is not part of a coincident pair has to be a proper bend; of a coincident pair exactly one
+        size_t k = path.size();
+        for (size_t i = 1; i + 1 < k && ok; ++i) {
+            bool inZ = path[i - 1]->posX() == path[i]->posX() && path[i - 1]->posY() == path[i]->posY();
+            bool outZ = path[i + 1]->posX() == path[i]->posX() && path[i + 1]->posY() == path[i]->posY();
+            if (inZ && i >= 2) {
+                const EP *n = path[i - 2], *o = path[i - 1], *pp = path[i], *qq = path[i + 1];
+                double c = cross2(n->posX(), n->posY(), pp->posX(), pp->posY(), qq->posX(), qq->posY());
+                ok = c != 0 && (hValidTurn(n, o, qq) != hValidTurn(n, pp, qq));
+            } else if (!inZ && !outZ) {
+                ok = hValidTurn(path[i - 1], path[i], path[i + 1]);
+            }
+        }
+        if (!ok) continue;
+        vpsc::Dim dim = r.coin() ? vpsc::XDIM : vpsc::YDIM;
+        std::vector<std::pair<unsigned, int> > ids;
+        printf("q %d %zu", (int) dim, k);
+        for (size_t i = 0; i < k; ++i) {
+            const vpsc::Rectangle *rc = path[i]->node->rect;
+            printf(" %s %s %s %s", hx(path[i]->posX()).c_str(), hx(path[i]->posY()).c_str(), hx(rc->getCentreX()).c_str(), hx(rc->getCentreY()).c_str());
+            ids.push_back(std::make_pair(path[i]->node->id, (int) path[i]->rectIntersect));
+        }
+        printf("\n"); fflush(stdout);                  // (the library may print diagnostics of its own to stdout)
+        g_nodes = &sc.nodes; g_edges = &sc.edges; g_dim = (int) dim;
+        unsigned n = sc.nodes.size();
+        vpsc::Variables vs;
+        for (unsigned i = 0; i < n; ++i) vs.push_back(new vpsc::Variable(i, sc.rs[i]->getCentreD(dim)));
+        topology::setNodeVariables(sc.nodes, vs);
+        vpsc::Constraints cs;
+        {
+            topology::TopologyConstraints t(dim, sc.nodes, sc.edges, nullptr, vs, cs);
+            topology::ConstEdgePoints after;
+            sc.edges[0]->getPath(after);
+            printf("kept %zu", after.size());
+            size_t from = 0;
+            for (size_t j = 0; j < after.size(); ++j) {
+                std::pair<unsigned, int> id = std::make_pair(after[j]->node->id, (int) after[j]->rectIntersect);
+                size_t i = from;
+                while (i < ids.size() && ids[i] != id) ++i;
+                printf(" %zu", i);                      // k = not a point of the input path
+                if (i < ids.size()) from = i + 1;
+            }
+            printf("\n");
+        }
+        g_nodes = nullptr; g_edges = nullptr;
+        for (size_t i = 0; i < cs.size(); ++i) delete cs[i];
+        for (size_t i = 0; i < vs.size(); ++i) delete vs[i];
+        for (unsigned i = 0; i < n; ++i) sc.nodes[i]->var = nullptr;
+        ++done;
+    }
+}
+
+
 // ------------------------------------------------------------------ ConstrainedFDLayout + addon
 
 struct SnapAddon : public topology::ColaTopologyAddon {
@@ -1166,9 +1278,23 @@ int main(int argc, char **argv) {
     long nCoin = (thorough ? 500 : 100) * a.scale;
     for (long c = 0; c < nCoin; ++c, ++k) {
         if (!a.want(k)) continue;
-        vh::Rng r = vh::caseRng(a.seed, k);
+        // caseRng streams of neighbouring case indices are shifts of one another (splitmix state + k*gamma):
+        // reseed from a mixed output so that the cases of this class are independent
+        vh::Rng r0 = vh::caseRng(a.seed, k);
+        vh::Rng r(r0.next() ^ (r0.next() << 1));
         vh::beginCase(k, "scene-corner-coincide");
         runIsolated([&]() { sceneCornerCoincideCase(r, thorough); });
+        vh::endCase();
+    }
+    long nRule = (thorough ? 120 : 30) * a.scale;
+    for (long c = 0; c < nRule; ++c, ++k) {
+        if (!a.want(k)) continue;
+        // caseRng streams of neighbouring case indices are shifts of one another (splitmix state + k*gamma):
+        // reseed from a mixed output so that the cases of this class are independent
+        vh::Rng r0 = vh::caseRng(a.seed, k);
+        vh::Rng r(r0.next() ^ (r0.next() << 1));
+        vh::beginCase(k, "prune-rule");
+        runIsolated([&]() { pruneRuleCase(r); });
         vh::endCase();
     }
     return 0;
